@@ -137,7 +137,8 @@ def alt_accepts(alt: dict, op: dict, isa: Isa) -> bool:
     k = op['k']
     # an enumeration key is textually an identifier: any plain-expression alternative reads it as a label
     # (a key such as "eq.l" is not an identifier: no expression alternative reads it)
-    as_label = k == 'enum' and str(op['key']).isidentifier()
+    # ... and a key that is a decimal numeral ("1") is, for an expression alternative, the number
+    as_label = k == 'enum' and (str(op['key']).isidentifier() or str(op['key']).isdigit())
     if kind in ('numeric', 'address', 'numeric_bytecode', 'numeric_enumeration'):
         return k == 'expr' or as_label
     if kind == 'relative_address':
@@ -172,7 +173,10 @@ def alt_accepts(alt: dict, op: dict, isa: Isa) -> bool:
         keys = (alt.get('argument') or {}).get('value_dict') or {}
         if k == 'enum':
             return op['key'] in keys
-        # an identifier that is both a defined label and an enumeration key reads as the key
+        # an identifier that is both a defined label and an enumeration key reads as the key; so does a plain decimal
+        # numeral that is a key
+        if k == 'expr' and op['e'][0] == 'num' and op['e'][2] == 'dec':
+            return str(op['e'][1]) in keys
         return k == 'expr' and op['e'][0] == 'lab' and op['e'][1] in keys
     if kind == 'empty':
         return False
@@ -302,7 +306,7 @@ def operand_fields(aid: str, alt: dict, op, ctx: Ctx):
     code = None
     arg = None
     if op is not None and op['k'] == 'enum' and kind != 'enumeration':
-        op = {'k': 'expr', 'e': ['lab', op['key']]}
+        op = {'k': 'expr', 'e': ['num', int(op['key']), 'dec'] if str(op['key']).isdigit() else ['lab', op['key']]}
     bc = alt.get('bytecode')
     if bc is not None and 'value' in bc:
         code = (bc['size'], (lambda v=bc['value']: v))
@@ -386,7 +390,7 @@ def operand_fields(aid: str, alt: dict, op, ctx: Ctx):
                 return ac['value_dict'][v]
             arg = (n, al, en, afn)
     elif kind == 'enumeration':
-        key = op['key'] if op['k'] == 'enum' else op['e'][1]
+        key = op['key'] if op['k'] == 'enum' else str(op['e'][1])
         code = None
         if bc is not None and bc.get('value_dict') is not None and key in bc['value_dict']:
             code = (bc['size'], (lambda: bc['value_dict'][key]))
